@@ -147,3 +147,44 @@ func TourUpgradesAfterSyncRotation(rt *rapid.T) *ChainCase {
 	}
 	return cc
 }
+
+// TourJustificationPatterns: per epoch one of {justified on time, justified late (its attestations are only
+// included during the next epoch), never justified}; every combination of the four finalization rules of
+// process_justification_and_finalization — including the histories in which two rules hold at once — is
+// a short word over that alphabet.
+func TourJustificationPatterns(rt *rapid.T) *ChainCase {
+	fork := rapid.SampledFrom([][4]uint64{{far, far, far, far}, {1, far, far, far}, {1, 2, 3, far}, {1, 1, 1, 1}, {3, 5, far, far}}).Draw(rt, "forks")
+	o := TourBaseOverride(map[string]uint64{"MIN_EPOCHS_TO_INACTIVITY_PENALTY": rapid.SampledFrom([]uint64{1, 4}).Draw(rt, "leak_after")})
+	cc := &ChainCase{Profile: "full", Config: ConfigCase{Family: "custom", ForkEpochs: fork, Override: o}}
+	n := rapid.IntRange(8, 20).Draw(rt, "n")
+	cc.Genesis = GenesisCase{N: n, GenesisTime: 1000, Eth1Seed: rapid.Uint64().Draw(rt, "eth1_seed")}
+	for i := 0; i < n; i++ {
+		cc.Genesis.AmountClass = append(cc.Genesis.AmountClass, 0)
+		cc.Genesis.Eth1Cred = append(cc.Genesis.Eth1Cred, true)
+	}
+	epochs := rapid.IntRange(6, 10).Draw(rt, "epochs")
+	mode := make([]int, epochs+1) // 0 on time, 1 late, 2 never
+	for e := 0; e <= epochs; e++ {
+		mode[e] = rapid.SampledFrom([]int{0, 0, 1, 1, 2}).Draw(rt, "mode")
+	}
+	for s := 1; s < (epochs+1)*4; s++ {
+		e := s / 4
+		p := tourBlock(rt, 1000)
+		prev := 2
+		if e > 0 {
+			prev = mode[e-1]
+		}
+		switch {
+		case mode[e] == 0 && prev == 1:
+			p.AttEpochs = 0
+		case mode[e] == 0:
+			p.AttEpochs = 2
+		case prev == 1:
+			p.AttEpochs = 1
+		default:
+			p.AttMode = 0
+		}
+		cc.Actions = append(cc.Actions, Action{Kind: "block", Slots: 1, Plan: p})
+	}
+	return cc
+}
